@@ -56,6 +56,10 @@ def classify_clocked(p):
 
     def edge_of(c):
         c = strip_paren(c)
+        if c[0] == "attr" and c[2] == "event" and strip_paren(c[1])[0] == "name":     # (clk'event): both edges
+            o = p.scope.lookup(strip_paren(c[1])[1])
+            if isinstance(o, (Net, AliasNet)) and o.ty[0] == "sl":
+                return base_net(o), "both"
         if c[0] == "call" and c[1] in ("rising_edge", "falling_edge") and len(c[2]) == 1:
             a = strip_paren(c[2][0])
             if a[0] == "name":
@@ -148,7 +152,7 @@ class Lifter:
             raise Unsupported("more than one clock")
         edges = {c["edge"] for c in clocked.values()}
         if edges - {"rising"}:
-            raise Unsupported("falling-edge clock (the circuit model of the certificate checker is rising-edge only)")
+            raise Unsupported("falling-edge / both-edge clocked process (the circuit model of the certificate checker is rising-edge only) - interpreter route only")
         for n in e.nets:
             if n.ty[0] == "array":
                 raise Unsupported("memory (array signal; GenericMemoryEntity) - interpreter route only")
